@@ -2,6 +2,7 @@ package gen
 
 import (
 	"fmt"
+	"strings"
 
 	"pgregory.net/rapid"
 
@@ -288,4 +289,63 @@ func exclusiveThenCommon(t *rapid.T) *ref.Doc {
 		sels = []*ref.Selection{common, exclusive}
 	}
 	return &ref.Doc{Ops: []*ref.Operation{{Op: "query", Sels: sels}}, Frags: []*ref.Fragment{a, b}}
+}
+
+// FragmentGraphDocument draws a document whose fragments form a random spread graph: mostly a
+// chain in which every fragment spreads its successor several times (the shape on which a
+// per-path search is exponential), with random forward edges and back edges (cycles), plain,
+// under a field that keeps the type, or under an alias. The context is Query, __Type or
+// __Schema so the introspection rules see it too. It returns the schema to validate against.
+func FragmentGraphDocument(t *rapid.T, userSchema, introSchema string) (string, string) {
+	type ctx struct {
+		schema, typ, leaf string
+		self              []string
+		roots             []string
+	}
+	cs := []ctx{
+		{userSchema, "Query", "s", []string{"q"}, []string{"{...f0}", "{q{...f0}}", "{...f0 q{...f0}}"}},
+		{introSchema, "__Type", "name", []string{"ofType", "interfaces", "possibleTypes"}, []string{`{__type(name:"A"){...f0}}`, "{__schema{types{...f0}}}", "{__schema{queryType{...f0} types{...f0}}}"}},
+		{introSchema, "__Schema", "description", nil, []string{"{__schema{...f0}}"}},
+	}
+	c := cs[rapid.IntRange(0, len(cs)-1).Draw(t, "ctx")]
+	n := rapid.IntRange(2, 45).Draw(t, "nfrag")
+	fan := rapid.IntRange(1, 3).Draw(t, "fan")
+	pBack := rapid.IntRange(0, 3).Draw(t, "backedges") // 0: acyclic
+	var sb strings.Builder
+	sb.WriteString(rapid.SampledFrom(c.roots).Draw(t, "root"))
+	for i := 0; i < n; i++ {
+		fmt.Fprintf(&sb, " fragment f%d on %s{", i, c.typ)
+		if i == n-1 || rapid.IntRange(0, 5).Draw(t, "leaf") == 0 {
+			sb.WriteString(c.leaf + " ")
+		}
+		k := fan
+		if rapid.IntRange(0, 4).Draw(t, "varyFan") == 0 {
+			k = rapid.IntRange(1, 3).Draw(t, "k")
+		}
+		for j := 0; j < k; j++ {
+			target := i + 1
+			switch r := rapid.IntRange(0, 19).Draw(t, "edge"); {
+			case r < 2 && i+2 < n:
+				target = rapid.IntRange(i+2, n-1).Draw(t, "fwd")
+			case r < 2+pBack:
+				target = rapid.IntRange(0, i).Draw(t, "back")
+			}
+			if target >= n {
+				if pBack == 0 {
+					continue
+				}
+				target = rapid.IntRange(0, n-1).Draw(t, "wrap")
+			}
+			switch w := rapid.IntRange(0, 9).Draw(t, "wrapKind"); {
+			case w < 6 || len(c.self) == 0:
+				fmt.Fprintf(&sb, "...f%d ", target)
+			case w < 8:
+				fmt.Fprintf(&sb, "%s{...f%d} ", rapid.SampledFrom(c.self).Draw(t, "self"), target)
+			default:
+				fmt.Fprintf(&sb, "x%d:%s{...f%d} ", rapid.IntRange(0, 1).Draw(t, "alias"), rapid.SampledFrom(c.self).Draw(t, "self"), target)
+			}
+		}
+		sb.WriteString("}")
+	}
+	return c.schema, sb.String()
 }
